@@ -76,15 +76,19 @@ func c12In(items []c12Item, a netip.Addr) bool {
 type c12Case struct {
 	Kind       string // allow | deny
 	Items      []c12Item
-	Remote     string   // RemoteAddr host part
-	XFF        []string // X-Forwarded-For header values (each may hold a comma list)
-	Extra      string   // another option on the same route
+	Remote     string    // RemoteAddr host part
+	XFF        []string  // X-Forwarded-For header values (each may hold a comma list)
+	Other      []c12Item // a second list of the other kind on the same route (allow + deny)
+	Extra      string    // another option on the same route
 	ExtraFirst bool
 }
 
 func genC12(r *rand.Rand) *c12Case {
 	cs := &c12Case{Kind: choose(r, []string{"allow", "deny"})}
 	cs.Items = genC12Items(r, r.Intn(3) == 0)
+	if r.Intn(10) == 0 {
+		cs.Other = genC12Items(r, false)
+	}
 	if r.Intn(4) == 0 {
 		cs.Extra = choose(r, []string{"strip=/x", "proto=http", "redirect=200", "redirect=301x", "redirect=", "redirect=999", "tlsskipverify=true", "weight=abc", "host=dst", "unknownoption=1", "auth=nosuch"})
 		cs.ExtraFirst = r.Intn(2) == 0
@@ -97,11 +101,18 @@ func genC12(r *rand.Rand) *c12Case {
 		var parts []string
 		for m := 1 + r.Intn(3); m > 0; m-- {
 			x := choose(r, c12Addrs)
-			switch r.Intn(10) {
+			switch r.Intn(12) {
 			case 0:
 				x = " " + x + "  "
 			case 1:
 				x = choose(r, []string{"unknown", "_hidden", "example.com", ""})
+			case 2:
+				// the other spellings proxies use for an address: with a port, in brackets, with a zone
+				if strings.Contains(x, ":") {
+					x = choose(r, []string{"[" + x + "]", "[" + x + "]:4711", x + "%eth0"})
+				} else {
+					x += ":4711"
+				}
 			}
 			parts = append(parts, x)
 		}
@@ -154,6 +165,18 @@ func c12Decision(c *ctx) {
 		if cs.ExtraFirst && cs.Extra != "" {
 			script = fmt.Sprintf("route add svc acl.test/ http://10.0.0.9:80/ opts \"%s %s=%s\"", cs.Extra, cs.Kind, strings.Join(texts, ","))
 		}
+		if len(cs.Other) > 0 {
+			// both kinds of rule on one route: whatever fabio makes of the combination, this list keeps its meaning
+			var ot []string
+			for _, it := range cs.Other {
+				ot = append(ot, it.Text)
+			}
+			if strings.Join(ot, ",") != "" {
+				otherKind := map[string]string{"allow": "deny", "deny": "allow"}[cs.Kind]
+				script = fmt.Sprintf("route add svc acl.test/ http://10.0.0.9:80/ opts \"%s=%s %s=%s\"", cs.Kind, strings.Join(texts, ","), otherKind, strings.Join(ot, ","))
+				allGood = false // the combination may refuse more than this list alone: checked one-directionally
+			}
+		}
 		t, err := newTable(script)
 		if err != nil {
 			c.R.Violate("c12:table", err.Error(), in)
@@ -177,7 +200,7 @@ func c12Decision(c *ctx) {
 		// "every address listed in X-Forwarded-For": we take all lines
 		for _, line := range cs.XFF {
 			for _, p := range strings.Split(line, ",") {
-				if a, err := netip.ParseAddr(strings.TrimSpace(p)); err == nil {
+				if a, ok := c12ForwardedAddr(strings.TrimSpace(p)); ok {
 					addrs = append(addrs, a)
 				}
 			}
@@ -433,4 +456,20 @@ func c12AuthReload(c *ctx, dir string) {
 		}
 	}
 	c.R.Count("auth_reload_steps", int64(len(steps)))
+}
+
+// c12ForwardedAddr reads one X-Forwarded-For element: an address, possibly with a port, in brackets or with a zone.
+func c12ForwardedAddr(p string) (netip.Addr, bool) {
+	if a, err := netip.ParseAddr(p); err == nil {
+		return a.WithZone(""), true
+	}
+	if ap, err := netip.ParseAddrPort(p); err == nil {
+		return ap.Addr().WithZone(""), true
+	}
+	if strings.HasPrefix(p, "[") && strings.HasSuffix(p, "]") {
+		if a, err := netip.ParseAddr(p[1 : len(p)-1]); err == nil {
+			return a.WithZone(""), true
+		}
+	}
+	return netip.Addr{}, false
 }
